@@ -71,6 +71,10 @@ CHECKS = [
      "design_ref": "DESIGN.md 5/C20",
      "level_text": "Generated live-state histories x files (line numbers, checksums, comments, blank lines, @-commands, LF/CRLF, missing final terminator), compared line for line with the live path. Exploration.",
      "level_note": "Trusted: the line normaliser in props/c20.py (what OctoPrint hands to the queuing hooks) and vlib/gread.py."},
+    {"id": "C16", "technique": "property-based testing (Hypothesis) of planArc / computeArcCenterOffsets / the G2-G3 handler against analytic circle geometry",
+     "design_ref": "DESIGN.md 5/C16",
+     "level_text": "Generated arcs over the whole stated range of start points, radii, sweeps, directions and both forms, judged by an analytic oracle (on-circle, equal signed steps, total sweep, spacing, exact end point, |R| equidistance) plus end-to-end suppression / pass-through decisions. Exploration.",
+     "level_note": "Trusted: math.atan2/hypot with the stated tolerances. Open finding KF-C16-RCENTRE: the equidistance assertion on R-form arcs with a non-axis-aligned chord is excluded (counted); the mirror side chosen by the R form is not asserted."},
     {"id": "C17", "technique": "property-based testing (Hypothesis) against exact rational arithmetic and probe-point soundness oracle",
      "design_ref": "DESIGN.md 5/C17",
      "level_text": "Generated search over region pairs and probe points with an exact-arithmetic oracle; finds any membership/containment error larger than a few ulp on the explored inputs, does not prove absence.",
